@@ -4,7 +4,10 @@ import CattrsModel.Lemmas.ModesAgree
 # C02 — structuring is sound: it returns a value conforming to T, or raises, on any input
 
 Property theorems only.  `conf w T v` is "v is a value of T at every depth" (exact classes, literal
-membership under Python `==`, exact arity of heterogeneous tuples, key/required-key rules, sets and
+membership under Python `==` -- for a `Literal[...]` that contains enum members: v IS one of the literal's arguments,
+the member itself or the plain value itself, `litConf`; `_structure_enum_literal` (model: `litStruct` / `litLookup`)
+accepts the VALUE of a member and hands out the member, rejects the member itself, later arguments win on equal keys --,
+exact arity of heterogeneous tuples, key/required-key rules, sets and
 dict keys hashable and duplicate-free); `Any`/untyped positions accept everything (documented
 pass-through); TypedDict results may carry undeclared keys (recorded finding F9, see C10).
 
